@@ -695,7 +695,7 @@ func run(r *core.Run) int {
 		}
 	}
 	r.Set("cases", len(cases))
-	core.Parallel(len(cases), func(i int) {
+	r.Parallel(len(cases), func(i int) {
 		c := cases[i]
 		execute(r, c)
 		if len(c.Devs) > 0 {
